@@ -62,7 +62,8 @@ def _cases(draw):
         return {"rejected": "queries invalid: " + errs[0].message[:200]}
     defs = [print_ast(n) for n in parse(sdl).definitions]
     k = d.int(1, min(6, len(defs)))
-    names = d.shuffle(["a", "b", "types/c", "types/inputs/d", "z", "m/n"])[:k]
+    # same base names in different sub-directories, sibling directories, nesting
+    names = d.shuffle(["a", "b", "types/c", "types/inputs/d", "z", "m/n", "m/a", "types/a", "other/c", "types/inputs/b"])[:k]
     tree = {}
     assign = [d.int(0, k - 1) for _ in defs]
     for i, text in enumerate(defs):
@@ -70,6 +71,9 @@ def _cases(draw):
     tree = {n + d.choice([".graphql", ".graphqls", ".gql"]): "\n\n".join(v) + "\n" for n, v in tree.items()}
     if len(tree) >= 3 and any("/" in n for n in tree):
         d.tag("tree.multi_subdir")
+    bases = [os.path.basename(n) for n in tree]
+    if len(set(bases)) < len(bases):
+        d.tag("tree.same_basename_in_two_dirs")
     if any(f[2] is not None for fs in desc.inputs.values() for f in fs):
         d.tag("schema.input_defaults")
     cfg = base_config(d, otel=False)
